@@ -278,6 +278,9 @@ func init() {
 		for _, m := range []string{"plain", "aes-256-gcm", "aes-128-gcm", "chacha20-poly1305"} {
 			jobs = append(jobs, vx.Job{Scenario: "session.garbage", Params: vx.P("method", m, "step", step), Weight: 8})
 		}
+		for _, m := range []string{"aes-256-gcm", "aes-128-gcm", "chacha20-poly1305", "plain"} {
+			jobs = append(jobs, vx.Job{Scenario: "mux.garbagerecord", Params: vx.P("method", m), Bound: 0, BudgetS: 100, Weight: 2})
+		}
 		return jobs
 	})
 }
